@@ -17,6 +17,16 @@ Only `ast` is used; nothing of /repo is imported.  For every function of every x
     free variables (module globals -> `Capture.cell`, variables of an enclosing function ->
     `Capture.arg`), and whether the dispatcher is created per call (jit applied to a nested def)
                                                                            -> jit atoms, KernelFacts
+  * jit *call expressions* anywhere in a module -- `nb.jit(parallel=True)(f.py_func)`, `ngjit(f)`,
+    `X = jit(...)(f)` at module level or inside a function: a second compilation of `f` with the
+    options of that call                                                   -> KernelFacts, callee inlined
+  * module-level random generator OBJECTS (`G = np.random.RandomState(123)`): mutable module state that
+    every function drawing from it reads and advances                      -> seed / draw table
+  * writes to attributes / items of a function's own PARAMETERS (`agg.attrs[k] = v`, `raster[x] = v`,
+    `arrays[i].data = ...`, mutator methods, in-place numpy helpers), followed through helper calls
+    per call site (only what is rooted in a parameter of the caller counts): for a PUBLIC function
+    these are writes to state the *caller* owns and keeps after the call      -> mutate param;
+    loads of `p.attrs / p.coords / p.name` of a parameter                  -> read param
   * functions handed to dask (map_blocks / map_overlap / delayed / blockwise / reduction)
   * for the seeded generators: which aspects of the template raster are read (shape / dtype / ... vs
     its cell *values* while they are still the caller's)
@@ -50,6 +60,10 @@ RNG_SEED = {"seed", "set_state"}
 RNG_READ = {"get_state"}
 RNG_LOCAL = {"RandomState", "default_rng", "Generator", "SeedSequence", "PCG64", "MT19937", "Philox", "SFC64",
              "BitGenerator", "mtrand", "bit_generator"}
+VIEW_FUNCS = {"asarray", "asanyarray", "ascontiguousarray", "ravel", "reshape", "squeeze", "view", "transpose", "atleast_1d",
+              "atleast_2d", "atleast_3d", "swapaxes", "moveaxis", "get", "setdefault"}
+RNG_OBJECTS = {"RandomState", "default_rng", "Generator", "Random"}
+PARAM_ASPECTS = ("attrs", "coords", "name", "binding", "cells", "object")
 ENTROPY = {("time", "time"), ("time", "time_ns"), ("time", "perf_counter"), ("time", "monotonic"),
            ("time", "process_time"), ("os", "urandom"), ("os", "getpid"), ("uuid", "uuid1"), ("uuid", "uuid4"),
            ("secrets", "token_bytes"), ("secrets", "randbits"), ("secrets", "token_hex"),
@@ -139,6 +153,8 @@ def classify_value(v):
         last = d[-1] if d else None
         if last in JIT_NAMES or (d and "jit" in d):
             return "deco"
+        if last in RNG_OBJECTS and d and ("random" in d or len(d) == 1):
+            return "rng"         # a generator object with its own state, shared by everybody who draws from it
         if last in ("namedtuple", "TypeVar", "compile", "getLogger", "frozenset", "tuple", "float", "int", "str",
                     "dtype", "float32", "float64", "int32", "int64", "uint8", "uint32", "radians", "sqrt"):
             return "const"
@@ -258,6 +274,79 @@ def deco_info(R, m, func):
                     else:
                         info[opt] = True     # not a literal: assume the dangerous value
     return info
+
+
+def jit_call_shape(node):
+    """`J(opts...)(target)` or `J(target, opts...)` -> (J expression, keywords, target expression); purely syntactic"""
+    if not isinstance(node, ast.Call):
+        return None
+    if isinstance(node.func, ast.Call) and len(node.args) >= 1 and isinstance(node.args[0], (ast.Name, ast.Attribute)):
+        return node.func.func, list(node.func.keywords), node.args[0]
+    if node.args and isinstance(node.args[0], (ast.Name, ast.Attribute)):
+        return node.func, list(node.keywords), node.args[0]
+    return None
+
+
+def numba_jit_expr(R, m, fexpr):
+    """is `fexpr` numba's jit / njit / ... (or a module-level decorator value such as `ngjit`)?  -> keywords of the
+    decorator value (dict) or None"""
+    parts = dotted(fexpr) or []
+    if not parts:
+        return None
+    r = R.resolve(m, parts[0])
+    if len(parts) == 1 and r and r[0] == "var" and r[3] == "deco":
+        v = R.mods[r[1]].assigns[r[2]]
+        return {k.arg: k.value for k in v.keywords}
+    if parts[-1] in JIT_NAMES and r and r[0] == "ext" and r[1].split(".")[0] == "numba":
+        return {}
+    return None
+
+
+def jit_opts(kws):
+    out = {}
+    for opt in ("parallel", "cache", "fastmath"):
+        v = kws.get(opt)
+        out[opt] = False if v is None else (bool(v.value) if isinstance(v, ast.Constant) else True)
+    return out
+
+
+def chain_root(node):
+    """strip subscripts / attributes down to a Name: -> (name, steps from the root outwards; '[]' = a subscript)"""
+    steps, b = [], node
+    while True:
+        if isinstance(b, ast.Subscript):
+            steps.append("[]")
+            b = b.value
+        elif isinstance(b, ast.Attribute):
+            steps.append(b.attr)
+            b = b.value
+        elif isinstance(b, ast.Starred):
+            b = b.value
+        elif isinstance(b, ast.Name):
+            return b.id, steps[::-1]
+        else:
+            return None
+
+
+def aspect_of(steps):
+    """which part of a caller-owned object a store at the end of `steps` changes (None: nothing the caller can see)"""
+    s = list(steps)
+    if s and s[0] == "view":           # a sliced raster: a new object sharing the cells only
+        rest = s[1:]
+        if not rest or rest[0] == "[]" or (rest[0] in ("data", "values") and len(rest) > 1):
+            return "cells"
+        return None
+    while s and s[0] == "[]" and any(x != "[]" for x in s):
+        s.pop(0)                 # an element of a container parameter (`arrays[i].data = ...`)
+    if not s or all(x == "[]" for x in s):
+        return "cells"
+    if s[0] in ("attrs", "coords"):
+        return s[0]
+    if s[0] in ("data", "values"):
+        return "binding" if len(s) == 1 else "cells"
+    if s[0] == "name" and len(s) == 1:
+        return "name"
+    return "object"
 
 
 def is_prange_call(n):
@@ -386,6 +475,8 @@ class Extractor:
                 for st in c.body:
                     if isinstance(st, (ast.FunctionDef, ast.AsyncFunctionDef)):
                         self._add(f"{m.name}.{cname}.{st.name}", m, st, None)
+        self.scan_jit_calls()
+        self.param_write_fixpoint()
         # which parameters does a function mutate (directly or by handing them on)?  fixpoint
         for f in self.fns.values():
             f.mutated_params = self.direct_param_mutations(f)
@@ -411,6 +502,326 @@ class Extractor:
                                 and k.value.id in {x.arg for x in f.node.args.args} and k.value.id not in f.mutated_params:
                             f.mutated_params.add(k.value.id)
                             changed = True
+
+    # ---- jit call expressions: `X = nb.jit(parallel=True)(f.py_func)`, `ngjit(g)`, anywhere in a module
+    def scan_jit_calls(self):
+        """every call expression that compiles a function of /repo with numba outside a decorator list:
+        self.jitcalls = [dict(name, mod, target, opts, lineno, owner, alias)]; a module-level `X = <such a call>`
+        makes X a 'jitalias' (a reference to X is a call of the target through a second dispatcher)"""
+        self.jitcalls, self.jitalias = [], {}
+        for m in self.R.mods.values():
+            owner_of, alias_of = {}, {}
+            for f in self.fns.values():
+                if f.mod is m:
+                    for n in self.walk_own(f.node):
+                        owner_of.setdefault(id(n), f)
+            for st in ast.walk(m.tree):
+                if isinstance(st, ast.Assign) and len(st.targets) == 1 and isinstance(st.targets[0], ast.Name):
+                    alias_of[id(st.value)] = st.targets[0].id
+            decos = set()
+            for n in ast.walk(m.tree):
+                if isinstance(n, (ast.FunctionDef, ast.AsyncFunctionDef, ast.ClassDef)):
+                    for d in n.decorator_list:
+                        decos.update(id(x) for x in ast.walk(d))
+            for n in ast.walk(m.tree):
+                if id(n) in decos:
+                    continue
+                sh = jit_call_shape(n)
+                if not sh:
+                    continue
+                base = numba_jit_expr(self.R, m, sh[0])
+                if base is None:
+                    continue
+                kws = dict(base)
+                kws.update({k.arg: k.value for k in sh[1] if k.arg})
+                t = sh[2]
+                if isinstance(t, ast.Attribute) and t.attr == "py_func":
+                    t = t.value
+                tgt = None
+                if isinstance(t, ast.Name):
+                    r = self.R.resolve(m, t.id)
+                    if r and r[0] == "func":
+                        tgt = f"{r[1]}.{r[2]}"
+                    own = owner_of.get(id(n))
+                    if tgt is None and own is not None:
+                        r2 = self.lookup(own, t.id)
+                        if r2 and r2[0] == "nested":
+                            tgt = r2[1].fid
+                own = owner_of.get(id(n))
+                alias = alias_of.get(id(n)) if own is None else None
+                name = f"{m.name}.{alias}" if alias else f"{own.fid if own else m.name}.<jit@{n.lineno}>"
+                jc = dict(name=name, mod=m.name, target=tgt, opts=jit_opts(kws), lineno=n.lineno,
+                          owner=own.fid if own else None, alias=alias, text=ast.unparse(n)[:120])
+                self.jitcalls.append(jc)
+                if alias:
+                    m.kind[alias] = "jitalias"
+                    self.jitalias[(m.name, alias)] = jc
+
+    # ---- writes to the caller's objects ------------------------------------------------------------
+    def roots_of(self, f):
+        """local name -> (parameter of f, attribute it is a view of | None): the parameters themselves and names
+        bound exactly once to `p`, `p.attrs`, `p.coords`, `p.data`, `p.values`; a nested function also sees the
+        roots of the enclosing function through its free variables"""
+        if getattr(f, "_roots", None) is not None:
+            return f._roots
+        a = f.node.args
+        roots = {x.arg: (x.arg, None) for x in a.posonlyargs + a.args + a.kwonlyargs}
+        for x in (a.vararg, a.kwarg):
+            if x is not None:
+                roots[x.arg] = (x.arg, None)
+        containers = {x.arg for x in (a.vararg, a.kwarg) if x is not None}
+        count, first = {}, {}
+        for n in self.walk_own(f.node):
+            tg = []
+            if isinstance(n, ast.Assign):
+                tg = [(t, n.value) for t in n.targets]
+            elif isinstance(n, (ast.AnnAssign, ast.AugAssign)):
+                tg = [(n.target, n.value)]
+            elif isinstance(n, (ast.For, ast.AsyncFor)):
+                # `for x in p[1:]` / `for i, x in enumerate(p)`: x is an element of the caller's container
+                it, t = n.iter, n.target
+                if isinstance(it, ast.Call) and (dotted(it.func) or [None])[-1] in ("enumerate", "reversed", "list", "tuple", "sorted") \
+                        and it.args:
+                    if (dotted(it.func) or [None])[-1] == "enumerate" and isinstance(t, ast.Tuple) and len(t.elts) == 2:
+                        t = t.elts[1]
+                    it = it.args[0]
+                tg = [(n.target, None)]
+                if isinstance(t, ast.Name):
+                    tg = [(t, ast.Subscript(value=it, slice=ast.Constant(value=0), ctx=ast.Load()))]
+                    if t is not n.target:
+                        tg.append((n.target.elts[0], None))
+            elif isinstance(n, (ast.With, ast.AsyncWith)):
+                tg = [(it.optional_vars, None) for it in n.items if it.optional_vars is not None]
+            for t, v in tg:
+                for nm in ast.walk(t):
+                    if isinstance(nm, ast.Name) and isinstance(nm.ctx, ast.Store):
+                        count[nm.id] = count.get(nm.id, 0) + 1
+                        first.setdefault(nm.id, []).append(v if isinstance(t, ast.Name) and isinstance(n, (ast.Assign, ast.For, ast.AsyncFor))
+                                                           else None)
+        def alias_of(v):
+            cr = chain_root(v) if isinstance(v, (ast.Name, ast.Attribute, ast.Subscript)) else None
+            if not cr or cr[0] not in roots:
+                return None
+            steps = [x for x in cr[1] if x != "[]"]
+            if not steps:
+                if len(cr[1]) == 0 or roots[cr[0]][0].lstrip("^") in containers:
+                    return roots[cr[0]]                   # the object itself / an element of a container parameter (`*arrays`)
+                # `x = p[a:b]`: for a raster a NEW object (own name / attrs / coords) that shares only the cells
+                return (roots[cr[0]][0], "view") if roots[cr[0]][1] in (None, "view", "data", "values") else None
+            if len(steps) == 1 and roots[cr[0]][1] is None and steps[0] in ("attrs", "coords", "data", "values") and cr[1][-1] == steps[0]:
+                return (roots[cr[0]][0], steps[0])
+            return None
+        changed = True
+        while changed:
+            changed = False
+            for nm, vs in first.items():
+                if nm in roots or any(v is None for v in vs):
+                    continue
+                al = {alias_of(v) for v in vs}           # every binding of the name is the same view of the same parameter
+                if len(al) == 1 and None not in al:
+                    roots[nm] = al.pop()
+                    changed = True
+        if f.parent is not None:
+            for nm, r in self.roots_of(f.parent).items():
+                if nm not in roots and nm not in f.locals:
+                    roots[nm] = ("^" + r[0].lstrip("^"), r[1])      # a free variable: the enclosing function's object
+        f._roots = roots
+        return roots
+
+    def rooted(self, f, expr):
+        """(parameter, steps) when `expr` is a chain of attributes / subscripts starting at a root of f"""
+        cr = chain_root(expr)
+        if not cr:
+            return None
+        roots = self.roots_of(f)
+        if cr[0] not in roots:
+            return None
+        p, via = roots[cr[0]]
+        return p, ([via] if via else []) + cr[1]
+
+    def direct_param_writes(self, f):
+        """parameter -> aspects written by f's own statements.  Flow-sensitive in one respect: after
+        `p = <fresh value>` in the same or an enclosing statement list, `p` no longer denotes the caller's object"""
+        out = {}
+
+        def add(expr, extra, rebound):
+            cr = chain_root(expr)
+            if not cr or cr[0] in rebound:
+                return
+            r = self.rooted(f, expr)
+            if r:
+                asp = aspect_of(list(r[1]) + list(extra))
+                if asp:
+                    out.setdefault(r[0], set()).add(asp)
+
+        def fresh_value(v):
+            if isinstance(v, ast.Call):
+                d = dotted(v.func)
+                return not (d and d[-1] in VIEW_FUNCS)
+            return isinstance(v, (ast.BinOp, ast.UnaryOp, ast.Compare, ast.Constant, ast.List, ast.Tuple, ast.Dict, ast.Set,
+                                  ast.ListComp, ast.DictComp, ast.SetComp, ast.JoinedStr, ast.BoolOp)) and not \
+                (isinstance(v, ast.BoolOp) and any(isinstance(x, ast.Name) for x in v.values))
+
+        def scan(n, rebound):
+            """the writes of one statement's own expressions (nested statement lists are walked by `walk`)"""
+            stack = [n]
+            while stack:
+                x = stack.pop()
+                for ch in ast.iter_child_nodes(x):
+                    if isinstance(ch, (ast.FunctionDef, ast.AsyncFunctionDef, ast.ClassDef, ast.Lambda)):
+                        continue
+                    if isinstance(ch, ast.stmt) and x is n and isinstance(n, (ast.If, ast.For, ast.AsyncFor, ast.While, ast.Try,
+                                                                                 ast.With, ast.AsyncWith)):
+                        continue
+                    if isinstance(ch, ast.ExceptHandler):
+                        continue
+                    stack.append(ch)
+                if isinstance(x, (ast.Subscript, ast.Attribute)) and isinstance(x.ctx, (ast.Store, ast.Del)):
+                    add(x, (), rebound)
+                elif isinstance(x, ast.AugAssign):
+                    if not isinstance(x.target, ast.Name) or self.array_like(f, x.target.id):
+                        add(x.target, ("[]",), rebound)
+                elif isinstance(x, ast.Call):
+                    d = dotted(x.func)
+                    if isinstance(x.func, ast.Attribute) and x.func.attr in MUTATORS:
+                        add(x.func.value, ("[]",), rebound)
+                    if d and d[-1] in NP_INPLACE_FUNCS and d[0] in ("np", "numpy", "da", "cupy") and x.args:
+                        add(x.args[0], ("[]",), rebound)
+                    for k in x.keywords:
+                        if k.arg == "out" and d and d[0] in ("np", "numpy", "da", "cupy"):
+                            add(k.value, ("[]",), rebound)
+
+        def walk(stmts, rebound):
+            rebound = set(rebound)
+            for st in stmts:
+                if isinstance(st, (ast.FunctionDef, ast.AsyncFunctionDef, ast.ClassDef)):
+                    continue
+                scan(st, rebound)
+                for fld in ("body", "orelse", "finalbody"):
+                    sub = getattr(st, fld, None)
+                    if isinstance(sub, list) and sub and isinstance(sub[0], ast.stmt):
+                        walk(sub, rebound)
+                if isinstance(st, ast.Try):
+                    for h in st.handlers:
+                        walk(h.body, rebound)
+                if isinstance(st, ast.Assign) and fresh_value(st.value):
+                    for t in st.targets:
+                        if isinstance(t, ast.Name):
+                            rebound.add(t.id)
+        walk(f.node.body, set())
+        return out
+
+    def array_like(self, f, name):
+        """`p += x` on a bare name is an in-place write only when p is an array: a parameter that is subscripted or
+        whose array attributes are used somewhere in the function (numbers are re-bound, not written)"""
+        for n in self.walk_own(f.node):
+            if isinstance(n, ast.Subscript) and isinstance(n.value, ast.Name) and n.value.id == name:
+                return True
+            if isinstance(n, ast.Attribute) and isinstance(n.value, ast.Name) and n.value.id == name \
+                    and n.attr in ("shape", "data", "values", "attrs", "dtype", "ndim", "T"):
+                return True
+        return False
+
+    def param_write_fixpoint(self):
+        """f.param_writes: parameter (or '^name' = object of the enclosing function) -> aspects written, directly or
+        through a helper that receives something rooted in that parameter (per call site), through a nested
+        function writing a free variable, or through a function that is only *referenced* (handed to a mapper /
+        to dask) and has a parameter of the same name"""
+        for f in self.fns.values():
+            f.param_writes = self.direct_param_writes(f)
+        changed = True
+
+        def merge(f, p, aspects):
+            nonlocal changed
+            cur = f.param_writes.setdefault(p, set())
+            if not aspects <= cur:
+                cur |= aspects
+                changed = True
+
+        def through(steps, aspects):
+            """aspects of the caller's object written when the callee writes `aspects` of what `steps` denotes"""
+            s = [x for x in steps if x != "[]"]
+            if "view" in s:
+                return {"cells"} if aspects & {"cells"} else set()
+            if not s:
+                return set(aspects)
+            if s[0] in ("attrs", "coords"):
+                return {s[0]}
+            if s[0] in ("data", "values"):
+                return {"cells"} if aspects & {"cells", "binding", "object"} else set()
+            return {"object"}
+        rounds = 0
+        while changed and rounds < 30:
+            changed = False
+            rounds += 1
+            for f in self.fns.values():
+                roots = self.roots_of(f)
+                called = set()
+                for n in self.walk_own(f.node):
+                    if not isinstance(n, ast.Call):
+                        continue
+                    tgt = self.callee_of(f, n.func)
+                    ja = None
+                    if tgt is None and isinstance(n.func, ast.Name):
+                        r = self.lookup(f, n.func.id)
+                        if r and r[0] == "var" and r[3] == "jitalias":
+                            ja = self.jitalias.get((r[1], r[2]))
+                            tgt = ja["target"] if ja else None
+                    g = self.fns.get(tgt) if tgt else None
+                    if g is None:
+                        continue
+                    called.add(id(n.func))
+                    if not g.param_writes:
+                        continue
+                    ga = g.node.args
+                    gp = [a.arg for a in ga.posonlyargs + ga.args]
+                    for i, a in enumerate(n.args):
+                        q = gp[i] if i < len(gp) else (ga.vararg.arg if ga.vararg else None)
+                        if q is None or q not in g.param_writes:
+                            continue
+                        r = self.rooted(f, a)
+                        if r:
+                            merge(f, r[0], through(r[1], g.param_writes[q]))
+                    for k in n.keywords:
+                        q = k.arg if k.arg is not None else (ga.kwarg.arg if ga.kwarg else None)
+                        if q is None or q not in g.param_writes:
+                            continue
+                        r = self.rooted(f, k.value)
+                        if r:
+                            merge(f, r[0], through(r[1], g.param_writes[q]))
+                # closures and bare references
+                for n in self.walk_own(f.node):
+                    if not (isinstance(n, ast.Name) and isinstance(n.ctx, ast.Load)):
+                        continue
+                    tgt = self.callee_of(f, n)
+                    g = self.fns.get(tgt) if tgt else None
+                    if g is None or not g.param_writes:
+                        continue
+                    for q, aspects in list(g.param_writes.items()):
+                        if q.startswith("^"):
+                            nm = q.lstrip("^")
+                            own = {x.arg for x in f.node.args.posonlyargs + f.node.args.args + f.node.args.kwonlyargs}
+                            merge(f, nm if nm in own else q, set(aspects))
+                        elif id(n) not in called and q in roots:
+                            merge(f, roots[q][0], through([roots[q][1]] if roots[q][1] else [], aspects))
+
+    def references_alias(self, f, jc):
+        for n in self.walk_own(f.node):
+            if isinstance(n, ast.Name) and isinstance(n.ctx, ast.Load) and n.id == jc["alias"]:
+                r = self.lookup(f, n.id)
+                if r and r[0] == "var" and r[3] == "jitalias" and r[1] == jc["mod"]:
+                    return True
+        return False
+
+    def caller_writes(self, f):
+        """aspects of caller-owned objects a *public* function writes (its own parameters only)"""
+        a = f.node.args
+        own = {x.arg for x in a.posonlyargs + a.args + a.kwonlyargs} | {x.arg for x in (a.vararg, a.kwarg) if x is not None}
+        out = set()
+        for p, aspects in getattr(f, "param_writes", {}).items():
+            if p in own:
+                out |= aspects
+        return sorted(out)
 
     def _add(self, fid, m, node, parent):
         f = Fn(fid, m, node, parent)
@@ -534,7 +945,7 @@ class Extractor:
                 return ("dflt", f"{owner.fid}.{name}")
             return None
         _, mod, vname, kind = r
-        if kind == "table":
+        if kind in ("table", "rng"):
             return ("table", f"{mod}.{vname}")
         if vname in self.R.mods[mod].global_written:
             return ("glob", f"{mod}.{vname}")
@@ -565,8 +976,8 @@ class Extractor:
                 elif r[0] == "local":
                     caps.append(("arg", n.id))
                 elif r[0] == "var":
-                    kind = "table" if r[3] == "table" else "glob"
-                    if r[3] != "deco":
+                    kind = "table" if r[3] in ("table", "rng") else "glob"
+                    if r[3] not in ("deco", "jitalias"):
                         caps.append(("cell", (kind, f"{r[1]}.{r[2]}")))
         return caps
 
@@ -711,11 +1122,16 @@ class Extractor:
                             out.append(("call", f"{sub}.{d[1]}"))
                         elif m2.kind.get(d[1]) == "table":
                             out.append(("atom", "read", ("table", f"{sub}.{d[1]}")))
+                        elif m2.kind.get(d[1]) == "rng":
+                            out.append(("atom", "draw", ("table", f"{sub}.{d[1]}")))
                         elif d[1] in m2.global_written:
                             out.append(("atom", "read", ("glob", f"{sub}.{d[1]}")))
                         if isinstance(e.ctx, (ast.Store, ast.Del)) and len(d) == 2:
                             out.append(("atom", "mutate", ("glob", f"{sub}.{d[1]}")))
                         return
+            if e.attr in ("attrs", "coords", "name") and isinstance(e.ctx, ast.Load) and isinstance(e.value, ast.Name) \
+                    and e.value.id in self.roots_of(f) and self.roots_of(f)[e.value.id][1] is None:
+                out.append(("atom", "read", ("param", e.attr)))
             self.expr(f, e.value, out)
             if isinstance(e.ctx, (ast.Store, ast.Del)):
                 self.mutation(f, e, out)
@@ -784,13 +1200,45 @@ class Extractor:
             for st in c.body:
                 if isinstance(st, (ast.FunctionDef, ast.AsyncFunctionDef)):
                     out.append(("call", f"{r[1]}.{r[2]}.{st.name}"))
+        elif r[0] == "var" and r[3] == "rng":
+            # a module-level generator object handed around / aliased: whoever gets it draws from the shared state
+            out.append(("atom", "draw", ("table", f"{r[1]}.{r[2]}")))
+        elif r[0] == "var" and r[3] == "jitalias":
+            self.jit_alias_ref(f, r, out)
         else:
             c = self.cell_of(f, n.id)
             if c:
                 out.append(("atom", "read", c))
 
+    def jit_alias_ref(self, f, r, out):
+        """a reference to `X = jit(...)(g)`: a call of g through X's own module-level dispatcher"""
+        jc = self.jitalias.get((r[1], r[2]))
+        if not jc:
+            return
+        g = self.fns.get(jc["target"]) if jc["target"] else None
+        if g is None:
+            out.append(("atom", "read", ("glob", f"{r[1]}.{r[2]}.<unresolved jit target>")))
+            out.append(("atom", "mutate", ("glob", f"{r[1]}.{r[2]}.<unresolved jit target>")))
+            return
+        caps = self.captures(g)
+        if caps:
+            out.append(("jit", dict(name=jc["name"], fresh=False, cache=bool(jc["opts"]["cache"]), caps=caps)))
+        out.append(("call", g.fid))
+
     def call(self, f, e, out):
         d = dotted(e.func)
+        # ---- a module-level generator object: G.seed(..) / G.get_state() / G.<anything else> = draw
+        if d and len(d) == 2 and isinstance(e.func, ast.Attribute):
+            r0 = self.lookup(f, d[0])
+            if r0 and r0[0] == "var" and r0[3] == "rng":
+                for a in e.args:
+                    self.expr(f, a.value if isinstance(a, ast.Starred) else a, out)
+                for k in e.keywords:
+                    self.expr(f, k.value, out)
+                cell = ("table", f"{r0[1]}.{r0[2]}")
+                kind = "seed" if d[1] in RNG_SEED | {"setstate"} else "read" if d[1] in RNG_READ | {"getstate"} else "draw"
+                out.append(("atom", kind, cell))
+                return
         # arguments first
         if not isinstance(e.func, (ast.Name,)) and not d:
             self.expr(f, e.func, out)
@@ -1113,6 +1561,21 @@ def writes_of(items, acc):
     return acc
 
 
+def reads_of(items, acc):
+    """cells a summary reads, draws from or freezes into compiled code"""
+    for it in items:
+        if it[0] == "atom" and it[1] in ("read", "draw"):
+            if it[2] not in acc:
+                acc.append(it[2])
+        elif it[0] == "jit":
+            for c in it[1]["caps"]:
+                if c[0] == "cell" and c[1] not in acc:
+                    acc.append(c[1])
+        elif it[0] == "block":
+            reads_of(it[1], acc)
+    return acc
+
+
 def count_items(items):
     n = 0
     for it in items:
@@ -1180,8 +1643,10 @@ def effects(repo):
     # module-level tables, mutable defaults, global writes
     for m in sorted(X.R.mods.values(), key=lambda m: m.name):
         for nm, k in sorted(m.kind.items()):
-            if k == "table":
+            if k in ("table", "rng"):
                 rep["tables"].append(f"{m.name}.{nm}")
+            if k == "rng":
+                rep.setdefault("rng_objects", []).append(f"{m.name}.{nm}")
         for nm in sorted(m.global_written):
             rep["global_writes"].append(f"{m.name}.{nm}")
     for fid, f in sorted(X.fns.items()):
@@ -1194,7 +1659,10 @@ def effects(repo):
         f = X.fns[fid]
         if f.mod.name.startswith("gpu_rtx"):
             continue
-        items = dedupe(X.flat(fid))
+        is_pub = fid in pub
+        items = list(X.flat(fid))
+        cw = X.caller_writes(f) if is_pub else []
+        items = dedupe(items + [("atom", "mutate", ("param", a)) for a in cw])
         reach = X.reach(fid)
         tasks = []
         for g in reach:
@@ -1202,7 +1670,12 @@ def effects(repo):
                 if t not in tasks:
                     tasks.append(t)
         kernels = [g for g in reach if X.fns[g].deco["kind"] == "jit"]
-        is_pub = fid in pub
+        for g in reach:
+            for jc in X.jitcalls:
+                if jc["name"] in kernels:
+                    continue
+                if jc["owner"] == g or (jc["alias"] and X.references_alias(X.fns[g], jc)):
+                    kernels.append(jc["name"])
         if (f.mod.name, f.node.name) in SEEDED_GENERATORS and f.parent is None:
             deps = generator_deps(X, f.mod.name, f.node.name)
         else:
@@ -1215,6 +1688,7 @@ def effects(repo):
                    f"  prog :=\n    {lean_prog(items)}\n  deps := {str_list(deps)}\n  tasks := {str_list(tasks)}\n"
                    f"  kernels := {str_list(kernels)}\n}}\n")
         rep["functions"][fid] = dict(public=is_pub, atoms=count_items(items), writes=[list(c) for c in writes_of(items, [])],
+                                     reads=[list(c) for c in reads_of(items, [])], kernels=kernels, caller_writes=cw,
                                      deps=deps, tasks=tasks, n_kernels=len(kernels), jit=f.deco["kind"],
                                      fresh_dispatcher=(f.parent is not None and f.deco["kind"] is not None),
                                      captures=[list(c[1]) if c[0] == "cell" else ["arg", c[1]] for c in X.captures(f)]
@@ -1251,7 +1725,36 @@ def effects(repo):
                    f"fastmath := {str(f.deco['fastmath']).lower()} }}")
         rep["kernels"][fid] = dict(parallel=f.deco["parallel"], prange=uses, racy=racy, why=why[:4], cache=f.deco["cache"],
                                    fastmath=f.deco["fastmath"], decorators=f.deco["text"])
+    # second compilations: jit call expressions (`X = nb.jit(parallel=True)(f.py_func)`)
+    for jc in X.jitcalls:
+        if jc["mod"].startswith("gpu_rtx"):
+            continue
+        g = X.fns.get(jc["target"]) if jc["target"] else None
+        uses, racy, why = racy_prange(g.node) if g is not None else (True, True, ["the compiled function could not be resolved"])
+        kn = "kf_" + ident(jc["name"])
+        if kn in knames:
+            continue
+        knames.append(kn)
+        o = jc["opts"]
+        out.append(f"/-- jit call expression, {jc['mod']} line {jc['lineno']}: `{jc['text']}` -/")
+        out.append(f"def {kn} : KernelFacts := {{ name := {lean_str(jc['name'])}, parallel := {str(o['parallel']).lower()}, "
+                   f"prange := {str(uses).lower()}, racy := {str(racy).lower()}, cache := {str(o['cache']).lower()}, "
+                   f"fastmath := {str(o['fastmath']).lower()} }}")
+        rep["kernels"][jc["name"]] = dict(parallel=o["parallel"], prange=uses, racy=racy, why=why[:4], cache=o["cache"],
+                                          fastmath=o["fastmath"], decorators=[jc["text"]], compiles=jc["target"],
+                                          call_expression=True)
     out.append("\ndef allKernelFacts : List KernelFacts := [\n  " + ",\n  ".join(knames) + "\n]\n")
+    # who writes / reads which shared cell (public functions): where a targeted search starts
+    cells = {}
+    for fid, v in rep["functions"].items():
+        if not v["public"]:
+            continue
+        for c in v["writes"]:
+            cells.setdefault(":".join(c), dict(writers=[], readers=[]))["writers"].append(fid)
+        for c in v["reads"]:
+            cells.setdefault(":".join(c), dict(writers=[], readers=[]))["readers"].append(fid)
+    rep["cells"] = {k: v for k, v in sorted(cells.items()) if v["writers"]}
+    rep["jit_calls"] = [{k: v for k, v in jc.items()} for jc in X.jitcalls]
     out.append("def moduleTables : List String := " + str_list(rep["tables"]))
     out.append("def mutableDefaults : List String := " + str_list(rep["defaults"]))
     out.append("def globalWrites : List String := " + str_list(rep["global_writes"]))
